@@ -6,7 +6,12 @@ from . import envelope_common as E
 def run(ctx):
     pr, corr = E.run(ctx, "C04")
     corr.update({
-        "rule": "fault enumeration around valid server-sealed packets (body lengths 0,3,16,40,72,200; thorough: 17 lengths up to 1000; random and degenerate keys): "
+        "rule": "auth keys of 0 (nil), 1, 127, 128, 135, 136, 137, 255, 257 bytes with packets carrying exactly that key's id (garbage ciphertext of 16..64 bytes, unaligned, "
+                "fragments; from 136 bytes on also packets sealed by the reference server) through DeserializeEncrypted and the real transport.ReadMsg in both modes: "
+                "error below 136 bytes, never a panic; key holder's packets sealed under a msg_key that differs from the right one in its last bit / last byte / first byte / ... "
+                "(key and iv derived from the WRONG msg_key, so only the final comparison can refuse); auth_key_id differing in one byte; declared lengths congruent to the true one "
+                "mod 2^8, 2^16, 2^24, 2^31; damaged and forged packets of ~65.5 kB and ~70 kB (bit flips, truncations around 2^16, lengths, wrong msg_key; mostly implementation + direct oracle); "
+                "a flipped bit of the key id must be refused outright; then: fault enumeration around valid server-sealed packets (body lengths 0,3,16,40,72,200; thorough: 17 lengths up to 1000; random and degenerate keys): "
                 "every single-bit flip (all bits for packets <= 128 bytes, ~384 sampled bits above), every truncation length including < 24 bytes, "
                 "appended bytes, re-keyed packets (other key, other key under the right key id, other direction), a key holder declaring lengths "
                 "{-2^31, -1, -32, -33, len-33..len+33, decrypted-32, +1, +32, +33, 2^31-1} with msg_key recomputed to match whenever the slice exists, "
@@ -29,15 +34,19 @@ def run(ctx):
         pr, "make -f Makefile.coq theories/Props/C04.vo (coqc 8.16.1) in /verif/coq",
         ["C04_history_independent is about the model (a pure function); that the Go code keeps no state and returns no slice aliasing a buffer "
          "that later calls write to is tied to it by the sequence correspondence only",
-         "C04_accept_implies_checks and C04_no_panic use no hypothesis on SHA-1 or AES at all (arbitrary functions); C04_no_panic asks for an "
-         "auth key of at least 136 bytes (generateAESIGE panics on shorter ones; the session key is 256 bytes)",
+         "C04_accept_implies_checks, C04_no_panic and C04_no_panic_dispatch use no hypothesis on SHA-1 or AES (arbitrary functions) and none on the auth key: "
+         "every key, absent or short ones included (HEAD refuses keys shorter than 136 bytes before the key schedule)",
+         "C04_accepted_has_server_parity (Go's signed view of msg_id): premise 'the msg_id field is a 64-bit pattern', true whenever the decrypted data are bytes; discharged on concrete "
+         "packets with the real primitives (Example C04_negative_ids_have_go_parity); that the Gallina AES returns byte values for all inputs is not proved",
+         "the server->client key schedule (x = 8) has no author-independent test vector: neither the MTProto 1.0 description nor the repository's tests contain one (the repository's pinned "
+         "packet exercises x = 0 only); x = 8 rests on the Coq transcription of the description (kiv_spec), its proved equality with the Go code's schedule, and the harness' own reference",
+         "open_client_pinned / C04_pinned_code_panics describe the pinned tree 0b0db56 and are tied to no code now",
          "C04_same_message_partial: explicit hypothesis that msg_key (SHA-1 bits 32..159) does not collide on the two specific strings involved; "
          "'every altered packet is refused' in full needs an idealised hash and is covered by the enumeration only",
          "executable instance: Gallina SHA-1 / AES-256 of Prim, validated by FIPS known answers and by this comparison",
          "the harness' own sealing code (independent implementation of the MTProto 1.0 envelope) used to build valid and key-holder packets"],
         corr)
     return C.finish(ctx, "proof", cov, [
-        "auth key has at least 136 bytes (always 256 in a session)",
         "no statement about SHA-1 collision resistance is assumed silently: see C04_same_message_partial",
         "memory exhaustion is not modelled (allocation sizes are bounded by the packet length after the repair)"])
 
